@@ -15,3 +15,43 @@ CHECKS = {
         "floors": {"valid": 0.3, "boundary_address": 0.05},
     },
 }
+
+HIST_ASSUME = ["fake API server (client-go object tracker) with the real pods/binding semantics re-implemented by the harness",
+               "informer model: lister = prefix of truth history, handler notifications = prefix of lister history (FIFO)",
+               "Bind is only issued after a successful Filter of the same pod incarnation, to a node Filter returned; one filter/bind request per pod at a time",
+               "IPv4, DNS-1123 names; which free IP galaxy picks is left to the code (validity-predicate oracles)"]
+
+def hist(test, rule, quick=2500, thorough=160000, floors=None, extra_assume=None):
+    return {"pkg": "ipamsim", "test": test, "level": "exploration",
+            "quick": {"checks": quick, "timeout": 900},
+            "thorough": {"checks": thorough, "shards": 16, "timeout": 2400},
+            "rule": rule, "assumptions": HIST_ASSUME + (extra_assume or []), "floors": floors or {}}
+
+GEN = ("rapid draws a Case = generated topology (1-4 pools over 2-4 node subnets, rendered to the documented JSON text and loaded through "
+       "the real decoder) + 1-3 workloads (statefulset, deployment, deployment with pool, scalable/non-scalable custom resource, bare pod; "
+       "policies default/immutable/never) + a history of 15-60 operations with abstract picks (create/recreate-same-name/schedule=filter+bind/"
+       "filter/bind/phase/delete/deliver or drop informer event/run queued unbind/resync/pod-IP sync/scale/delete app/API release/pool API/"
+       "reserve/restart/lister sync/quiesce, phrases of such ops, and concurrent episodes of 2-3 ops interleaved by the cooperative "
+       "scheduler at every lister/IPAM/API call); lister lag in 1/3 of the cases. ")
+
+CHECKS.update({
+    "C01": hist("TestC01", GEN + "Oracle after every op and every scheduler step: tables disjoint and = configured set, payloads of live "
+                "bound pods pairwise disjoint, no live pod's IP owned by another pod key. Non-trivial = >=2 pods bound and (an IP changed "
+                "owner, or an episode overlapped >=2 ops); distinct by SHA-1 of the case.", floors={"two_pods_bound": 0.2, "same_name_recreated": 0.3}),
+    "C02": hist("TestC02", GEN + "Biased to immutable/never/pool workloads and delete/recreate/reschedule. Oracle per filter/bind: a pod "
+                "whose key holds a reserved IP is only offered nodes routable for it and is bound with exactly that IP; a deployment/pool "
+                "pod whose app prefix holds reserved IPs gets one of them. Non-trivial = a binding happened while a reservation for that "
+                "identity existed.", floors={"same_name_recreated": 0.3}),
+    "C03": hist("TestC03", GEN + "All three policies x all workload kinds with scale/app deletion/finished pods/dropped events, ending in "
+                "quiesce. Oracle: reference model of doc/float-ip.md - no premature release at every unbind/resync evaluation, no leak at "
+                "every quiescence. Non-trivial = >=1 keep and >=1 release decision evaluated and a scale/app delete in the history.",
+                floors={"keep_decision": 0.1, "release_decision": 0.1}),
+    "C04": hist("TestC04", GEN + "Biased to same-name re-creation with late/duplicate unbind sources, resync, API release, reloads that keep "
+                "the IP, pod-IP sync. Oracle after every op and scheduler step: every live bound pod's still-configured IP is allocated to "
+                "its key, and the provider was not asked to unassign it. Non-trivial = a release path ran while a same-named replacement "
+                "was live and bound.", floors={"same_name_recreated": 0.3}),
+    "C10": hist("TestC10", GEN + "Recording cloud provider with cleanly failing calls. Oracle: per-IP state machine none|on(node) replayed "
+                "over the call log after every op/step (no assign to a second node while assigned, live bound pod's IP on its node, free "
+                "IP unassigned). Non-trivial = a pod identity was bound on two different nodes or a provider call failed.",
+                floors={"provider_call_failed": 0.05}),
+})
